@@ -21,6 +21,8 @@ RULE = ('Hypothesis: sequences of length 0..12 given as list / tuple / '
         '2-tuples.  Distinct = hash of the case.')
 RULE += (
          'Also: str-subclass and two-field tuple-subclass elements. ')
+RULE += (
+         'A second grouping variable asked around the first. ')
 ASSUMPTIONS = [
     'sequence-key is only defined for 2-tuple elements; letters only for '
     'index < 26; sort keys are unique, or tie in which case a sort keeps '
